@@ -111,8 +111,8 @@ static Material material(const Params &p, uint64_t salt)
         break;
     case AE128: case AE128A: case AE80:
         m.key = bytes_of(p.kind == AE80 ? 20 : 16, s ^ 20 ^ salt);
-        m.nonce = bytes_of(16, s ^ 21);
-        m.ad = bytes_of(p.n1, s ^ 22);
+        m.nonce = bytes_of(16, s ^ 21 ^ salt);
+        m.ad = bytes_of(p.n1, s ^ 22 ^ salt);
         m.msg = bytes_of(p.n3, s ^ 23 ^ salt);
         break;
     }
